@@ -31,6 +31,7 @@ var (
 	flagHist     = flag.Int("hist", 0, "internal: history index for -rectrace")
 	flagNoTrace  = flag.Bool("nostrace", false, "do not use strace even if available")
 	flagBudget   = flag.Int("budget", 0, "debug: override the internal deadline (seconds)")
+	flagReplay   = flag.String("replay", "", "replay file written for a violation: evaluate only its crash state (in every history), verbosely")
 	flagLimit    = flag.Int("limit", 0, "debug: evaluate only the first N crash states")
 	flagWorkers  = flag.Int("workers", 16, "number of worker subprocesses")
 )
@@ -318,6 +319,31 @@ func main() {
 		corpus.States = append(corpus.States, enumerate(len(corpus.Hists)-1, fine, r.Thorough())...)
 	}
 
+	if *flagReplay != "" {
+		buf, err2 := os.ReadFile(*flagReplay)
+		if err2 != nil {
+			harnessErr("replay: %v", err2)
+		}
+		var rp struct {
+			Replay struct {
+				Desc *StateDesc `json:"desc"`
+			} `json:"replay"`
+		}
+		if err2 = json.Unmarshal(buf, &rp); err2 != nil || rp.Replay.Desc == nil {
+			harnessErr("replay: %s holds no crash state (log-shape and closed-segment violations are reproduced by a plain run): %v", *flagReplay, err2)
+		}
+		var keep []StateDesc
+		for _, st := range corpus.States {
+			if st == *rp.Replay.Desc {
+				keep = append(keep, st)
+			}
+		}
+		if len(keep) == 0 {
+			harnessErr("replay: state %+v is not part of the enumeration", *rp.Replay.Desc)
+		}
+		corpus.States = keep
+	}
+
 	// ---- the crash states, through the real playback server, in worker subprocesses
 	cf := filepath.Join(base, "corpus.gob")
 	{
@@ -375,6 +401,12 @@ func main() {
 		}
 		reqs += res.Reqs
 		r.Distinct(res.Class)
+		if *flagReplay != "" {
+			fmt.Printf("REPLAY %s\n  %s\n", st, res.Class)
+			for _, v := range res.Viols {
+				fmt.Printf("  %s: %s\n", v.Key, v.What)
+			}
+		}
 		for _, v := range res.Viols {
 			if strings.HasPrefix(v.Key, "harness:") {
 				harnessErr("%s: %s", v.Key, v.What)
@@ -403,7 +435,7 @@ func main() {
 	r.Set("worker_deaths", deaths)
 	r.Set("histories_with_syscall_trace", straceUsed)
 	r.Set("syscalls_matched_with_inferred_log", syscallsMatched)
-	r.Exhaustive = handed == len(corpus.States)
+	r.Exhaustive = handed == len(corpus.States) && *flagReplay == "" && *flagLimit == 0
 	r.Set("bound_completed", fmt.Sprintf("%d of %d crash states", handed, len(corpus.States)))
 	how := "write log reconstructed from byte-exact directory snapshots taken at a fence after every unit (real Stream, real Recorder, real os.File); "
 	if straceUsed == len(corpus.Hists) {
